@@ -73,7 +73,7 @@ def trace_run(name, defs, tier, seed, cfgs, jvms=10):
     bins = build_subjects(metas, cfgs, name)
     requests = []
     for td, m in zip(tla_defs, metas):
-        if not (td["accepted"] and td["hasGraph"] and td["refsOk"]):
+        if not (td["accepted"] and td["hasGraph"] and td["refsOk"]) or any(rf["nullable"] for rf in td["ref"]):
             continue
         for data in gen_inputs(m, td, rng, tier):
             for flag, partial in (("ft", False), ("pt", True)):
